@@ -5,9 +5,10 @@ import WcModel.Properties.C12
 #print axioms WcModel.C12.result_shape
 #print axioms WcModel.C12.nodir_wired
 #print axioms WcModel.C12.nodir_excludes_dirs
+#print axioms WcModel.C12.nodir_excludes_dirs_built
 #print axioms WcModel.C12.exists_partial
 #print axioms WcModel.C12.flag_is_fs
-#print axioms WcModel.C12.D18_D16_witness
+#print axioms WcModel.C12.D18_D16_fixed_witness
 #print axioms WcModel.C12.nodir_regex_facts
 #print axioms WcModel.C12.dirfd_differs
 #print axioms WcModel.noWinDir_matches_dir
